@@ -50,7 +50,7 @@ fn case(t: Tier) -> BoxedStrategy<Case> {
             ccfg.w_add = 15;
             ccfg.w_cancel = 8;
             ccfg.w_upd_qty = 8;
-            ccfg.w_bulk = 0;
+            ccfg.w_bulk = 1;
             let profile = prefix.profile;
             (Just(prefix), 0u8..4, proptest::collection::vec(op_strategy(ccfg, profile), 1..=8))
         })
@@ -133,23 +133,18 @@ pub fn eval(c: &Case, st: &mut Stats, excuse_kf: bool) -> Result<Verdict, String
     let no_stale_resting = resting.iter().all(|id| !stale_at_snapshot.contains(id));
     // continuation on the original (through the interpreter, which resolves targets) ...
     let k0 = it.concrete.len();
-    let mut res_l: Vec<OpResult> = Vec::new();
     let mut partial_match = false;
     for op in &c.continuation {
-        // composite operations produce several calls but one result: not comparable, skipped
-        if matches!(op, Op::Churn { .. } | Op::Burst { .. } | Op::Transfer { .. } | Op::GhostAdd { .. } | Op::GhostRemove { .. } | Op::Read(_) | Op::Rebuild(_)) {
+        // (read-only calls, rebuilds and ghost operations are not part of a continuation)
+        if matches!(op, Op::GhostAdd { .. } | Op::GhostRemove { .. } | Op::Read(_) | Op::Rebuild(_)) {
             continue;
         }
         let r = it.apply(op);
-        if matches!(r, OpResult::Skipped | OpResult::Read) {
-            continue;
-        }
         if let OpResult::Matched { fills, .. } = &r {
             if !fills.is_empty() && !it.model.is_empty() {
                 partial_match = true;
             }
         }
-        res_l.push(normalise(&r));
         if it.dead {
             break;
         }
@@ -158,6 +153,8 @@ pub fn eval(c: &Case, st: &mut Stats, excuse_kf: bool) -> Result<Verdict, String
         st.count("continuation_aborted_on_original");
         return Ok(Verdict { strict: false, differs: false, nontrivial: false });
     }
+    // what every concrete call returned on the original (bulk operations are many calls)
+    let res_l: Vec<OpResult> = it.concrete_results[k0..].iter().map(normalise).collect();
     let calls: Vec<Concrete> = it.concrete[k0..].to_vec();
     let readds_stale = calls.iter().any(|c| matches!(c, Concrete::Add(o) if stale_at_snapshot.contains(&o.id())));
     let strict = increasing && no_stale_resting && !readds_stale;
@@ -263,7 +260,7 @@ pub fn run(cfg: &RunCfg) -> Report {
     let known = crate::known::load(&cfg.root);
     let excuse = known.listed("C11", "KF-C11-1");
     let tier = cfg.tier;
-    let n = cfg.cases(100_000, 3_000_000);
+    let n = cfg.cases(60_000, 2_000_000);
     rep.absorb("restore_differential", explore(cfg, "C11", n, move || case(tier), move |c: &Case, st| eval(c, st, excuse).map(|_| ())));
     for f in known.for_property("C11") {
         let hit = crate::known::read_witness(&cfg.root, f)
